@@ -33,6 +33,8 @@ struct Normaliser {
   Poly normTrunc(int t, int len);
   Poly atom(int t);
   std::map<std::string, int> polyAtoms;
+  std::map<int, Poly> invKey; // inv(...) atom -> the polynomial it inverts
+  bool zeroModDenominators(Poly p); // p == 0 wherever every inverted polynomial is non-zero (denominators cleared atom by atom)
   int polyAtom(const char *kind, const Poly &p, int rep, int bytes);
   int mulCount(int t, std::unordered_map<int, int> &memo2); // number of multiplications in the expression tree
 };
